@@ -10,8 +10,12 @@ def selftest():
     pe = os.path.join(d, "penv.json")
     json.dump(dict(vars=[dict(n=list("HOME"), v=list("/h"))]), open(pe, "w"))
     files = vlib.run_workers("hist", ["--mode", "data", "--n", "1", "--len", "25", "--seed", "3"], 1, d, "st", env={"HOME": "/h"}, clean_env=True)
-    rec = json.loads(open(files[0]).readline())
-    changing = [i for i, s in enumerate(rec["steps"]) if s["same"] == "f" and s["post"]["f"]]
+    # (the data mode starts with short directed chains: take the record with the most state changes - the seeded history)
+    def changes(r):
+        return [i for i, s in enumerate(r.get("steps", [])) if s.get("same") == "f" and s.get("post", {}).get("f")]
+    recs = [json.loads(l) for l in open(files[0]) if l.strip()]
+    rec = max(recs, key=lambda r: len(changes(r)))
+    changing = changes(rec)
     if len(changing) < 3:
         return "selftest history has too few state changes"
 
